@@ -118,6 +118,10 @@ func scnSelection(ctx *check.JobCtx) {
 	if ctx.Arg("bigpop", "") == "1" {
 		n = 60 + r.Intn(100)
 	}
+	if ctx.Arg("hugepop", "") == "1" {
+		// ~100 eligible providers: draws of more indices than a 32-byte seed has decimal digits (the seed runs out)
+		n = 240 + r.Intn(60)
+	}
 	size := int64([]int64{1000, 1_000_000, 5_000_000}[r.Intn(3)])
 	supers := r.Intn(4)
 	pop := buildPopulation(w, n, size, supers)
@@ -157,7 +161,11 @@ func scnSelection(ctx *check.JobCtx) {
 			}
 		}
 		replica := int32(1 + r.Intn(4))
-		switch r.Intn(5) {
+		pick := r.Intn(5)
+		if ctx.Arg("hugepop", "") == "1" && i%2 == 0 {
+			pick = 2 // nearly the whole eligible population
+		}
+		switch pick {
 		case 0:
 			replica = int32(elig) // exactly the eligible population
 		case 1:
